@@ -6,7 +6,7 @@
   property really needs: the breaks are listed in non-decreasing end-time order (finding F14 without it).
 -/
 import RosuModel.Props.C15Map
-import RosuModel.Lemmas.FloatModelOrder
+import RosuModel.Lemmas.FloatModelCompare
 namespace Rosu.C15
 open Rosu
 
@@ -14,17 +14,17 @@ open Rosu
 def NotNaN {α : Type} [Scalar α] (x : α) : Prop := Scalar.isNaN x = false
 
 section Generic
-variable {α : Type} [Scalar α] [FM.IeeeOrd α]
+variable {α : Type} [Scalar α] [FMO.IeeeOrd α]
 
 /-- `hle_lt` of `first_after_break_new_combo` on the numbers. -/
 theorem le_lt_ieee (x y z : α) (hx : NotNaN x) (_ : NotNaN y) (_ : NotNaN z)
     (h1 : Scalar.lt y x = false) (h2 : Scalar.lt y z = true) : Scalar.lt x z = true :=
-  FM.lt_of_not_lt_of_lt x y z hx h1 h2
+  FMO.lt_of_not_lt_of_lt x y z hx h1 h2
 
 /-- `hle_trans` of `pairwise_of_consecutive` on the numbers. -/
 theorem le_trans_ieee (x y z : α) (hx : NotNaN x) (hy : NotNaN y) (hz : NotNaN z)
     (h1 : Scalar.lt y x = false) (h2 : Scalar.lt z y = false) : Scalar.lt z x = false :=
-  FM.not_lt_trans x y z hx hy hz h1 h2
+  FMO.not_lt_trans x y z hx hy hz h1 h2
 
 end Generic
 
@@ -56,19 +56,19 @@ theorem pairwise_of_consecutive_le_float (breaks : List (BreakPeriod Float))
   | [], _ => exact List.Pairwise.nil
   | [a], _ => exact List.Pairwise.cons (fun _ h => by cases h) List.Pairwise.nil
   | a :: b :: rest, hcons =>
-    refine pairwise_of_consecutive_float _ ?_ (fun i b₁ b₂ h1 h2 => FM.not_lt_of_le _ _ (hcons i b₁ b₂ h1 h2))
+    refine pairwise_of_consecutive_float _ ?_ (fun i b₁ b₂ h1 h2 => FMO.not_lt_of_le _ _ (hcons i b₁ b₂ h1 h2))
     -- with two or more breaks every end time is one side of a true `<=`, hence a number
     intro c hc
     obtain ⟨m, hm, hcm⟩ := List.getElem_of_mem hc
     by_cases hlast : m + 1 < (a :: b :: rest).length
     · have := hcons m c ((a :: b :: rest)[m + 1]'hlast)
         (by rw [List.getElem?_eq_getElem hm, hcm]) (List.getElem?_eq_getElem hlast)
-      exact (FM.not_nan_of_le this).1
+      exact (FMO.not_nan_of_le this).1
     · obtain ⟨k, rfl⟩ : ∃ k, m = k + 1 := ⟨m - 1, by simp only [List.length_cons] at hm hlast; omega⟩
       have hk : k < (a :: b :: rest).length := by omega
       have := hcons k ((a :: b :: rest)[k]'hk) c (List.getElem?_eq_getElem hk)
         (by rw [List.getElem?_eq_getElem hm, hcm])
-      exact (FM.not_nan_of_le this).2
+      exact (FMO.not_nan_of_le this).2
 
 /-- **first_after_break_new_combo, on the decoded map**, for IEEE doubles. -/
 theorem first_after_break_new_combo_decoded_float [Trig Float32]
